@@ -194,6 +194,10 @@ def run(rep, D, tier, seed):
             cases.append((name, st, x, y))
     for name, st, x, y in cases + info_cases:
         terms.append('run_metric_flt "%s" %s %s' % (name, flist(x), flist(y)))
+    # the checked evaluator of the refinement theorem (Props/C06_flt_refine.v) on the same cases: how often its hypothesis
+    # "every intermediate finite" holds, and (re-checking C06_flt_checked_is_flt) that it then returns the same bits
+    for name, st, x, y in cases:
+        terms.append('run_metric_fltc "%s" %s %s' % (name, flist(x), flist(y)))
     try:
         res = run_cases("c06_flt", terms, requires=("Model.RunMetricFlt",), typ="list float",
                         preamble="From Coq Require Import String.\nOpen Scope string_scope.")
@@ -225,7 +229,17 @@ def run(rep, D, tier, seed):
         rep.violation("DISTANCES[%r] differs from metric_flt in the last bits on %d of its cases; e.g. (%s, n=%d) x=%r y=%r: real function %s, "
                       "metric_flt %s" % (name, len(lst), st, len(x), x, y, real, model),
                       dict(kind="metric_flt", name=name, x=x, y=y, style=st, real=real, model=model), key="metric:%s" % name)
-    for (name, st, x, y), r in zip(info_cases, res[len(cases):]):
+    n_all = len(cases) + len(info_cases)
+    chk_defined, chk_bad = 0, []
+    for (name, st, x, y), r, rc in zip(cases, res[:len(cases)], res[n_all:]):
+        if len(rc) == 2:
+            chk_defined += 1
+            if not (len(r) == 2 and same_bits(r[1], rc[1]) and math.isfinite(rc[1])):
+                chk_bad.append((name, x, y, r, rc))
+    rep.obligation("metric_fltc (checked evaluator of C06_flt_refine) is defined on %d of the %d cases and returns the bits of metric_flt there"
+                   % (chk_defined, len(cases)), not chk_bad and chk_defined > 0, "%r" % chk_bad[:3])
+    stats["checked_defined"] = chk_defined
+    for (name, st, x, y), r in zip(info_cases, res[len(cases):n_all]):
         got = call_real(D[name], x, y)
         restricted[name]["pairwise_cases"] += 1
         if not (got[0] == "val" and len(r) == 2 and same_bits(got[1], r[1])):
